@@ -134,13 +134,9 @@ def genRev : List OpDesc → Stream
   | d :: producers =>
     let idx := producers.length
     let prod := genRev producers
-    match ofmBoxes d.sN d.sH d.sW d.sC d.eN d.eH d.eW d.eC d.stepH d.stepW d.slices with
-    | .error e =>
-      -- range() step 0 fails before anything is yielded; a bad depth interval fails at that box
-      ([], some e)
-    | .ok boxes =>
-      let st := boxes.foldl (stepBox d idx (!producers.isEmpty) prod.2) ⟨[], prod.1, ⟨0, 0, 0, 0⟩, none⟩
-      (st.out, st.err)
+    let (boxes, berr) := ofmBoxesPrefix d.sN d.sH d.sW d.sC d.eN d.eH d.eW d.eC d.stepH d.stepW d.slices
+    let st := boxes.foldl (stepBox d idx (!producers.isEmpty) prod.2) ⟨[], prod.1, ⟨0, 0, 0, 0⟩, none⟩
+    (st.out, match st.err with | some e => some e | none => berr)
 
 /-- issue order of a cascade given from first to last operator -/
 def cascadeOrder (ops : List OpDesc) : Stream := genRev ops.reverse
